@@ -81,7 +81,7 @@ def check(run):
     lcases = lcases[:: max(1, len(lcases) // (6000 if run.tier == "quick" else 60000))]
     res2 = urlcorr.explore(run, binp, lcases, with_spec=False, types=("sequrl",))
     if res2 is not None:
-        bad = reccorr.check_setters(run, res2)
+        bad = reccorr.check_setters(run, res2, binp=binp)
         if bad is not None:
             run.oblige("corr:L1 Model.UrlSetters = ada::url setters under a limit on every step", not bad, str(bad[:2])[:1200])
             for b in bad[:3]:
